@@ -37,12 +37,16 @@ func Yield()            {}
 func Drain()            {}
 func NoPreempt(on bool) {}
 
+// PreemptWithin restricts pre-emptive thread switches to the time the running goroutine executes under a function
+// whose qualified name contains fn ("" lifts the restriction). Switches when a goroutine blocks or ends are unaffected.
+func PreemptWithin(fn string) {}
+
 // SchedOnlyAtYield restricts pre-emptive scheduling points to vx.Yield (blocking operations still switch).
 func SchedOnlyAtYield(on bool) {}
 
 // ---- faults ----
 
-func Fault(domain, site string) bool   { return nextDecision("fault:"+domain+":"+site, 2) == 1 }
+func Fault(domain, site string) bool   { return faultNative(domain, site) }
 func FaultBudget(domain string, n int) { setBudget(domain, n) }
 
 // FaultCap bounds the total number of injected faults across all domains (negative: no cap).
